@@ -12,7 +12,7 @@ import ast
 from fractions import Fraction
 from typing import Optional
 
-from ..program import AnalysisError, Program, unparse, short, walk_no_nested, increment_of
+from ..program import AnalysisError, Program, unparse, short, walk_no_nested, increment_of, sequential_expand, single_defs, xunparse
 from ..report import Report
 from . import c06, c19
 
@@ -143,14 +143,16 @@ def trip_count_rule(prog: Program, rep: Report) -> None:
     upd = prog.role_func("time", "update")
     inc = [increment_of(n) for n in walk_no_nested(upd.node) if (increment_of(n) or ("", 0))[0] == "self.step"]
     inc_v = inc[0][1] if len(inc) == 1 else None
-    mi = prog.func("model.Model.__init__")
     warm_step = None
-    for n in walk_no_nested(mi.node):
-        if isinstance(n, ast.Assign) and unparse(n.targets[0]) == "self.timer.step":
-            try:
-                warm_step = int(ast.literal_eval(n.value))
-            except Exception:
-                pass
+    for q, f in prog.module("model").functions.items():
+        if f.cls != "Model" or f.name == "update":
+            continue
+        for n in walk_no_nested(f.node):
+            if isinstance(n, ast.Assign) and unparse(n.targets[0]) == "self.timer.step":
+                try:
+                    warm_step = int(ast.literal_eval(n.value))
+                except Exception:
+                    pass
     main = prog.func("main.main")
     loops = [n for n in walk_no_nested(main.node) if isinstance(n, ast.For) and c19._is_time_loop(n)]
     tc = c19.trip_count(loops[0].iter) if len(loops) == 1 else None
@@ -231,53 +233,151 @@ def rollover_rule(prog: Program, rep: Report) -> None:
         raise AnalysisError("roll-over obligations not found")
     init = prog.role_func("output", "__init__")
     src = unparse(init.node)
-    multi = [n_ for n_ in walk_no_nested(init.node) if isinstance(n_, ast.If) and unparse(n_.test) == "self.numrec"]
+    multi = [n_ for n_ in walk_no_nested(init.node) if isinstance(n_, ast.If) and unparse(n_.test) in ("self.numrec", "bool(self.numrec)", "self.numrec > 0", "self.numrec != 0", "self.multifile", "numrec", "numrec > 0")]
     ok = False
     for g in multi:
         b = [unparse(x) for x in g.body]
         e = [unparse(x) for x in g.orelse]
-        ok = "self.filenames = filename_generator(Path(filename))" in b and "self.filename = next(self.filenames)" in b and any(x.startswith("self.numrec = ") for x in e) and "self.filename = Path(filename)" in e
+        if unparse(g.test) == "self.multifile":
+            mdef = [unparse(n_.value) for n_ in walk_no_nested(init.node) if isinstance(n_, ast.Assign) and unparse(n_.targets[0]) == "self.multifile" and n_.lineno < g.lineno]
+            if mdef[-1:] not in (["bool(self.numrec)"], ["self.numrec > 0"], ["bool(numrec)"]):
+                continue
+        ok = ok or ("self.filenames = filename_generator(Path(filename))" in b and "self.filename = next(self.filenames)" in b and any(x.startswith("self.numrec = ") for x in e) and "self.filename = Path(filename)" in e)
     rep.check(rule, init.qual, "numrec > 0: numbered files from the generator; else one file", ok, what_bad="multi-file set-up changed", what_ok="generator / single file", loc=init.loc())
     cl = prog.role_func("output", "close")
     okc = any(isinstance(n_, ast.If) and "isopen" in unparse(n_.test) and any("self.nc.close()" in unparse(x) for x in n_.body) for n_ in walk_no_nested(cl.node))
     rep.check(rule, cl.qual, "close() closes an open dataset only", okc, what_bad="closing twice raises / an open last file is never closed", what_ok="if isopen: close", loc=cl.loc())
 
 
+def _nf_of(e: ast.expr, names: dict):
+    """Tiny arithmetic evaluator: expression over names/constants -> normal form (atoms = unparse of leaves)."""
+    from ..nf import NF
+
+    if isinstance(e, ast.Constant) and isinstance(e.value, (int, float)):
+        return NF.const(e.value)
+    if isinstance(e, ast.UnaryOp) and isinstance(e.op, ast.USub):
+        return -_nf_of(e.operand, names)
+    if isinstance(e, ast.BinOp) and isinstance(e.op, (ast.Add, ast.Sub, ast.Mult)):
+        l, r = _nf_of(e.left, names), _nf_of(e.right, names)
+        return l + r if isinstance(e.op, ast.Add) else (l - r if isinstance(e.op, ast.Sub) else l * r)
+    return NF.atom(unparse(e))
+
+
 def numbering_rule(prog: Program, rep: Report) -> None:
+    """filename_generator: stem_%0{w}d starting at the parsed number (or 0, width 3), +1 per file.
+    Decided on sequentially expanded paths, so local names and the branch order do not matter."""
     rule = "R07.4"
     fi = prog.func("out_netcdf.filename_generator")
+    from ..nf import NF
+
+    # the search pattern
+    searches = [n for n in walk_no_nested(fi.node) if isinstance(n, ast.Call) and unparse(n.func) in ("re.search", "re.match", "re.fullmatch")]
     pat = None
-    for n in walk_no_nested(fi.node):
-        if isinstance(n, ast.Assign) and isinstance(n.value, ast.Constant) and isinstance(n.value.value, str) and "\\d" in n.value.value:
-            pat = n.value.value
+    if len(searches) == 1:
+        a0 = searches[0].args[0]
+        src = a0
+        if isinstance(a0, ast.Name):
+            src = single_defs(fi.node).get(a0.id, a0)
+        if isinstance(src, ast.Constant) and isinstance(src.value, str):
+            pat = src.value
     import re._parser as rp  # type: ignore
 
     okp = False
-    if pat:
+    if pat and len(searches) == 1 and unparse(searches[0].func) == "re.search" and len(searches[0].args) == 2:
         p = list(rp.parse(pat))
         kinds = [str(op) for op, av in p]
         okp = kinds == ["LITERAL", "SUBPATTERN", "AT"] and chr(p[0][1]) == "_" and "END" in str(p[2][1])
         if okp:
             sub = list(p[1][1][3])
-            okp = len(sub) == 1 and str(sub[0][0]) == "MAX_REPEAT" and sub[0][1][0] == 1
-    rep.check(rule, fi.qual, f"number pattern {pat!r}: '_' + digits at the end of the stem", okp, what_bad="the trailing _ddd of a file name is no longer recognised: a restart does not continue the numbering", what_ok="_(digits)$", loc=fi.loc())
-    defs = {}
-    for n in walk_no_nested(fi.node):
-        if isinstance(n, ast.Assign) and isinstance(n.targets[0], ast.Name):
-            defs.setdefault(n.targets[0].id, []).append(unparse(n.value))
-    ok = "int(ddd)" in defs.get("filenumber", []) and "0" in defs.get("filenumber", []) and "len(ddd)" in defs.get("number_width", []) and "3" in defs.get("number_width", [])
-    rep.check(rule, fi.qual, "start number and width: parsed digits, else 0 and width 3", ok, what_bad=f"{ {k: v for k, v in defs.items() if k in ('filenumber', 'number_width')} }", what_ok="int(ddd)/len(ddd) or 0/3", loc=fi.loc())
-    rep.check(rule, fi.qual, "stem without the _ddd suffix", "stem[:-number_width - 1]" in defs.get("xxxx", []) and "stem" in defs.get("xxxx", []), what_bad=f"{defs.get('xxxx')}", what_ok="stem[: -width - 1] / stem", loc=fi.loc())
-    tmpl = defs.get("filename_template", [""])[0]
-    rep.check(rule, fi.qual, "template stem_%0{w}d + suffix", "{xxxx}_{{:0{number_width}d}}{filename.suffix}" in tmpl, what_bad=f"template {tmpl}", what_ok="zero-padded number", loc=fi.loc())
-    loops = [n for n in walk_no_nested(fi.node) if isinstance(n, ast.While)]
+            okp = len(sub) == 1 and str(sub[0][0]) == "MAX_REPEAT" and sub[0][1][0] == 1 and "DIGIT" in str(sub[0][1][2])
+        subj = xunparse(searches[0].args[1], fi.node)
+        okp = okp and subj == "filename.stem"
+    rep.check(rule, fi.qual, f"number pattern {pat!r}: '_' + digits at the end of the stem", okp, what_bad="the trailing _ddd of a file name is no longer recognised: a restart does not continue the numbering", what_ok="re.search('_(digits)$', stem)", loc=fi.loc())
+    # the two set-up paths (statements before the generating loop)
+    loop_idx = next((i for i, st in enumerate(fi.node.body) if isinstance(st, (ast.While, ast.For))), None)
+    if loop_idx is None:
+        rep.bad(rule, fi.qual, "generating loop", "no loop that yields the file names", fi.loc())
+        return
+    loop = fi.node.body[loop_idx]
+    from ..paths import enumerate_paths as _ep
+
+    seen = {"match": False, "nomatch": False}
+    mtext = xunparse(searches[0], fi.node) if searches else "?"
+    for p in _ep(fi.node.body[:loop_idx]):
+        recs, env = sequential_expand(p.stmts())
+        # which branch?  condition on the match object
+        matched = None
+        for t, taken in p.conds():
+            tt = xunparse(t, fi.node)
+            if tt == mtext:
+                matched = taken
+            elif tt == f"{mtext} is None":
+                matched = not taken
+            elif tt == f"{mtext} is not None":
+                matched = taken
+        if matched is None:
+            continue
+        seen["match" if matched else "nomatch"] = True
+        # the loop's start number, the width and the prefix are whatever the loop and template use
+        tmpl = None
+        for name, v in env.items():
+            if isinstance(v, ast.JoinedStr):
+                tmpl = v
+        if tmpl is None:
+            rep.bad(rule, fi.qual, f"template ({'number found' if matched else 'no number'})", "no f-string template built before the loop", fi.loc())
+            continue
+        consts = [x.value for x in tmpl.values if isinstance(x, ast.Constant)]
+        fvals = [unparse(x.value) for x in tmpl.values if isinstance(x, ast.FormattedValue)]
+        group = f"{mtext}.group(1)"
+        if matched:
+            want_width = f"len({group})"
+            ok_t = consts == ["_{:0", "d}"] and len(fvals) == 3 and fvals[1] == want_width and fvals[2] == "filename.suffix"
+            # prefix = stem[: -(width + 1)]
+            ok_pref = False
+            try:
+                pe = ast.parse(fvals[0], mode="eval").body
+                if isinstance(pe, ast.Subscript) and unparse(pe.value) == "filename.stem" and isinstance(pe.slice, ast.Slice) and pe.slice.lower is None and pe.slice.upper is not None:
+                    ok_pref = _nf_of(pe.slice.upper, {}) == -NF.atom(want_width) - 1
+            except Exception:
+                ok_pref = False
+            rep.check(rule, fi.qual, "number found: template = stem without _ddd + '_' + zero-padded number of the same width + suffix", ok_t and ok_pref, what_bad=f"template parts {consts} / {fvals}", what_ok="stem[: -width - 1]_{:0<width>d}<suffix>", loc=fi.loc())
+            start_want = f"int({group})"
+        else:
+            ok_t = consts == ["_{:0", "d}"] and len(fvals) == 3 and fvals[0] == "filename.stem" and fvals[1] == "3" and fvals[2] == "filename.suffix"
+            rep.check(rule, fi.qual, "no number: template = stem + '_' + three-digit number + suffix", ok_t, what_bad=f"template parts {consts} / {fvals}", what_ok="stem_{:03d}<suffix>", loc=fi.loc())
+            start_want = "0"
+        # start number: the variable the loop counts from
+        start = None
+        if isinstance(loop, ast.While):
+            ys = [x for x in ast.walk(loop) if isinstance(x, ast.Yield)]
+            if ys and isinstance(ys[0].value, ast.BinOp):
+                fmt = [c for c in ast.walk(ys[0].value) if isinstance(c, ast.Call) and isinstance(c.func, ast.Attribute) and c.func.attr == "format"]
+                if fmt and fmt[0].args and isinstance(fmt[0].args[0], ast.Name):
+                    start = env.get(fmt[0].args[0].id)
+        elif isinstance(loop, ast.For) and isinstance(loop.iter, ast.Call) and unparse(loop.iter.func) in ("itertools.count", "count"):
+            a = loop.iter.args
+            start = a[0] if a else ast.Constant(0)
+            if isinstance(start, ast.Name):
+                start = env.get(start.id, start)
+        rep.check(rule, fi.qual, f"first file number ({'number found' if matched else 'no number'})", start is not None and unparse(start) == start_want, what_bad=f"numbering starts at {unparse(start) if start is not None else None}, expected {start_want}", what_ok=start_want, loc=fi.loc())
+    rep.check(rule, fi.qual, "both cases handled: stem with and without trailing _ddd", seen["match"] and seen["nomatch"], what_bad=f"{seen}", what_ok="both", loc=fi.loc())
+    # generation: consecutive numbers, first file = start number
     ok = False
-    if len(loops) == 1 and unparse(loops[0].test) == "True":
-        body = loops[0].body
-        ys = [i for i, s in enumerate(body) if isinstance(s, ast.Expr) and isinstance(s.value, ast.Yield)]
-        incs = [i for i, s in enumerate(body) if increment_of(s) == ("filenumber", 1)]
-        ok = len(ys) == 1 and len(incs) == 1 and ys[0] < incs[0] and len(body) == 2 and "filename_template.format(filenumber)" in unparse(body[ys[0]]) and "filename.parent" in unparse(body[ys[0]])
-    rep.check(rule, fi.qual, "yield parent/template.format(n); n += 1", ok, what_bad="file numbers must increase by exactly one per file, first file = start number", what_ok="consecutive numbers", loc=fi.loc())
+    if isinstance(loop, ast.While) and unparse(loop.test) == "True":
+        body = loop.body
+        ys = [i for i, st in enumerate(body) if isinstance(st, ast.Expr) and isinstance(st.value, ast.Yield)]
+        if len(ys) == 1 and len(body) == 2:
+            fmt = [c for c in ast.walk(body[ys[0]]) if isinstance(c, ast.Call) and isinstance(c.func, ast.Attribute) and c.func.attr == "format"]
+            cnt = unparse(fmt[0].args[0]) if fmt and fmt[0].args else None
+            incs = [i for i, st in enumerate(body) if increment_of(st) == (cnt, 1)]
+            ok = len(incs) == 1 and ys[0] < incs[0] and "filename.parent" in unparse(body[ys[0]])
+    elif isinstance(loop, ast.For) and isinstance(loop.iter, ast.Call) and unparse(loop.iter.func) in ("itertools.count", "count"):
+        step_ok = len(loop.iter.args) <= 1 or (len(loop.iter.args) == 2 and unparse(loop.iter.args[1]) == "1")
+        ys = [st for st in loop.body if isinstance(st, ast.Expr) and isinstance(st.value, ast.Yield)]
+        if len(ys) == 1 and len(loop.body) == 1 and step_ok:
+            fmt = [c for c in ast.walk(ys[0]) if isinstance(c, ast.Call) and isinstance(c.func, ast.Attribute) and c.func.attr == "format"]
+            ok = bool(fmt) and fmt[0].args and unparse(fmt[0].args[0]) == unparse(loop.target) and "filename.parent" in unparse(ys[0])
+    rep.check(rule, fi.qual, "yield parent/template.format(n) for n = start, start+1, ...", ok, what_bad="file numbers must increase by exactly one per file, the first file carrying the start number", what_ok="consecutive numbers", loc=fi.loc())
 
 
 def run(prog: Program, rep: Report, tier: str) -> None:
